@@ -288,11 +288,31 @@ func r19SetValuesAreWritten(c *cx, id string, in func(*eng.Fn) bool) int {
 		if f.Body == nil || !in(f) || f.Decl == nil || f.Decl.Recv == nil {
 			continue
 		}
+		tagless := map[*ast.CaseClause]bool{}
 		ast.Inspect(f.Body, func(nd ast.Node) bool {
-			ifs, ok := nd.(*ast.IfStmt)
-			if !ok {
+			if sw, ok := nd.(*ast.SwitchStmt); ok && sw.Tag == nil {
+				for _, st := range sw.Body.List {
+					if cc, ok := st.(*ast.CaseClause); ok && len(cc.List) == 1 {
+						tagless[cc] = true
+					}
+				}
+			}
+			return true
+		})
+		ast.Inspect(f.Body, func(nd ast.Node) bool {
+			var guard ast.Expr
+			switch x := nd.(type) {
+			case *ast.IfStmt:
+				guard = x.Cond
+			case *ast.CaseClause:
+				if tagless[x] {
+					guard = x.List[0]
+				}
+			}
+			if guard == nil {
 				return true
 			}
+			ifs := nd
 			var conj []ast.Expr
 			var split func(e ast.Expr)
 			split = func(e ast.Expr) {
@@ -304,7 +324,7 @@ func r19SetValuesAreWritten(c *cx, id string, in func(*eng.Fn) bool) int {
 				}
 				conj = append(conj, e)
 			}
-			split(resolveBool(f, ifs.Cond))
+			split(resolveBool(f, guard))
 			set := map[string]bool{}
 			other := map[string]string{}
 			for _, e := range conj {
@@ -633,8 +653,20 @@ func nilTolerantFormMethods(c *cx) map[string]bool {
 					continue
 				}
 			}
-			if ifs, ok := st.(*ast.IfStmt); ok {
-				if be, ok := ast.Unparen(resolveBool(f, ifs.Cond)).(*ast.BinaryExpr); ok && be.Op == token.EQL && (f.Norm(be.X, nil) == "recv" && f.Norm(be.Y, nil) == "nil" || f.Norm(be.Y, nil) == "recv" && f.Norm(be.X, nil) == "nil") && listReturns(ifs.Body.List) {
+			var cond ast.Expr
+			var body []ast.Stmt
+			switch x := st.(type) {
+			case *ast.IfStmt:
+				cond, body = x.Cond, x.Body.List
+			case *ast.SwitchStmt:
+				if x.Tag == nil && len(x.Body.List) > 0 {
+					if cc, ok := x.Body.List[0].(*ast.CaseClause); ok && len(cc.List) == 1 {
+						cond, body = cc.List[0], cc.Body
+					}
+				}
+			}
+			if cond != nil {
+				if be, ok := ast.Unparen(resolveBool(f, cond)).(*ast.BinaryExpr); ok && be.Op == token.EQL && (f.Norm(be.X, nil) == "recv" && f.Norm(be.Y, nil) == "nil" || f.Norm(be.Y, nil) == "recv" && f.Norm(be.X, nil) == "nil") && listReturns(body) {
 					in.guard = true
 				}
 			}
